@@ -19,6 +19,9 @@ type Use struct {
 	SuppSC []types.SiacoinElement
 	SuppSF []types.SiafundElement
 	SuppFC []types.FileContractElement
+	// ForceSupp makes the supplied (possibly mutated) parents REPLACE what the
+	// store would supply for the same IDs (C04 door 3).
+	ForceSupp bool
 }
 
 // UseV1SC spends p with a v1 transaction (p must carry a v1-class address).
@@ -79,7 +82,7 @@ func (w *World) UseV1Proof(fce types.FileContractElement, cur types.FileContract
 func (w *World) UseV2Revise(fce types.V2FileContractElement, cur types.V2FileContract, delta uint64) Use {
 	rev := cur
 	rev.RevisionNumber += delta
-	w.SignContract(&rev, w.Keys.keyIndex(cur.RenterPublicKey), w.Keys.keyIndex(cur.HostPublicKey))
+	w.SignContract(&rev, w.Keys.keyIndexOr0(cur.RenterPublicKey), w.Keys.keyIndexOr0(cur.HostPublicKey))
 	txn := types.V2Transaction{FileContractRevisions: []types.V2FileContractRevision{{Parent: fce.Copy(), Revision: rev}}}
 	return Use{Name: "v2revise", V2: &txn}
 }
@@ -96,7 +99,7 @@ func (w *World) UseV2Renew(fce types.V2FileContractElement, funding types.Siacoi
 	if funding.SiacoinOutput.Value.Cmp(cost) < 0 {
 		return Use{}, false
 	}
-	w.SignRenewal(&rn, w.Keys.keyIndex(cur.RenterPublicKey), w.Keys.keyIndex(cur.HostPublicKey))
+	w.SignRenewal(&rn, w.Keys.keyIndexOr0(cur.RenterPublicKey), w.Keys.keyIndexOr0(cur.HostPublicKey))
 	txn := types.V2Transaction{SiacoinInputs: []types.V2SiacoinInput{{Parent: funding.Copy()}},
 		FileContractResolutions: []types.V2FileContractResolution{{Parent: fce.Copy(), Resolution: &rn}}}
 	if change := funding.SiacoinOutput.Value.Sub(cost); !change.IsZero() {
@@ -140,6 +143,24 @@ func (w *World) BlockOfUses(uses ...Use) (types.Block, consensus.V1BlockSuppleme
 	b, bs := w.BuildBlock(v1, v2, BlockOpts{})
 	for i, u := range v1uses {
 		ts := &bs.Transactions[i]
+		if u.ForceSupp {
+			for _, e := range u.SuppSC {
+				ts.SiacoinInputs = dropSC(ts.SiacoinInputs, e.ID)
+			}
+			for _, e := range u.SuppSF {
+				ts.SiafundInputs = dropSF(ts.SiafundInputs, e.ID)
+			}
+			for _, e := range u.SuppFC {
+				ts.RevisedFileContracts = dropFC(ts.RevisedFileContracts, e.ID)
+				var sps []consensus.V1StorageProofSupplement
+				for _, sp := range ts.StorageProofs {
+					if sp.FileContract.ID != e.ID {
+						sps = append(sps, sp)
+					}
+				}
+				ts.StorageProofs = sps
+			}
+		}
 		for _, e := range u.SuppSC {
 			if !hasSC(ts.SiacoinInputs, e.ID) && txSpendsSC(v1[i], e.ID) {
 				ts.SiacoinInputs = append(ts.SiacoinInputs, e.Copy())
@@ -203,4 +224,31 @@ func hasFC(l []types.FileContractElement, id types.FileContractID) bool {
 		}
 	}
 	return false
+}
+
+func dropSC(l []types.SiacoinElement, id types.SiacoinOutputID) (out []types.SiacoinElement) {
+	for _, e := range l {
+		if e.ID != id {
+			out = append(out, e)
+		}
+	}
+	return
+}
+
+func dropSF(l []types.SiafundElement, id types.SiafundOutputID) (out []types.SiafundElement) {
+	for _, e := range l {
+		if e.ID != id {
+			out = append(out, e)
+		}
+	}
+	return
+}
+
+func dropFC(l []types.FileContractElement, id types.FileContractID) (out []types.FileContractElement) {
+	for _, e := range l {
+		if e.ID != id {
+			out = append(out, e)
+		}
+	}
+	return
 }
